@@ -218,6 +218,38 @@ func runTwin(tp *sim.Tape, tier string, o *runOut) {
 			fail(o, "C19", "round-not-inspectable/"+st, fmt.Sprintf("GetFSMDump fails with the round in state %s: %v; history: %s", st, err, h))
 			break
 		}
+		// the node also changes a loaded round without an event (reinitialisation:
+		// new communication keys through SetPubKeyUsername, the public polynomial
+		// written into the payload) and saves it with Dump(): what is saved must be
+		// the round as it is in memory
+		if tp.Choose(4, "directUpdate?") == 0 {
+			if inst, err := state_machines.FromDump(b.dump); err == nil && inst.FSMDump().Payload != nil && len(inst.FSMDump().Payload.PubKeys) > 0 {
+				who := f.Names[tp.Choose(len(f.Names), "whoseKey")]
+				nk := make([]byte, 32)
+				for k := range nk {
+					nk[k] = byte(tp.Choose(256, "keyByte"))
+				}
+				inst.FSMDump().Payload.SetPubKeyUsername(who, nk)
+				if pp := inst.FSMDump().Payload.DKGProposalPayload; pp != nil {
+					pp.PubPolyBz = append([]byte("poly-"), nk[:8]...)
+				}
+				saved, derr := inst.Dump()
+				if derr != nil {
+					fail(o, "C19", "updated-round-not-savable/"+st, fmt.Sprintf("%v; history: %s", derr, h))
+					break
+				}
+				back, rerr := state_machines.FromDump(saved)
+				if rerr != nil {
+					fail(o, "C19", "state-not-restorable/"+st, fmt.Sprintf("after a direct update of the payload: %v; history: %s", rerr, h))
+					break
+				}
+				if canon(inst.FSMDump()) != canon(back.FSMDump()) {
+					fail(o, "C19", "saved-round-differs-from-round-in-memory/"+st, fmt.Sprintf("a round in state %s was loaded, participant %s got a new communication key through the payload accessor, and Dump()+FromDump() gives back a round without that change; history: %s", st, who, h))
+					break
+				}
+				o.stats.Probe("direct-payload-update-saved-and-restored")
+			}
+		}
 		// the restored dump re-marshals to the same bytes (nothing is lost by persisting)
 		if inst, err := state_machines.FromDump(b.dump); err == nil {
 			if again, err := inst.Dump(); err != nil || !bytes.Equal(again, b.dump) {
